@@ -145,17 +145,20 @@ func nonEmptyGroupTactic(bc *boundsCtx, e ast.Expr, base ast.Expr, need needLen)
 	// loop whose variable indexes the shrunk element; e must lie in the same
 	// loop body before the shrink, indexing acc[k] or acc[k+c]
 	path := core.PathTo(body, shrink)
-	var loop *ast.ForStmt
+	var loop *struct{ Body *ast.BlockStmt }
+	var loopNode ast.Node
 	var blk *ast.BlockStmt
 	for k := len(path) - 1; k >= 0; k-- {
 		if b, ok := path[k].(*ast.BlockStmt); ok && blk == nil {
 			blk = b
 		}
-		if fs, ok := path[k].(*ast.ForStmt); ok {
-			loop = fs
+		if _, _, lbody, _, ok := countedLoop(info, path[k]); ok {
+			loop = &struct{ Body *ast.BlockStmt }{lbody}
+			loopNode = path[k]
 			break
 		}
-		if _, ok := path[k].(*ast.RangeStmt); ok {
+		switch path[k].(type) {
+		case *ast.RangeStmt, *ast.ForStmt:
 			return "", false
 		}
 	}
@@ -166,8 +169,34 @@ func nonEmptyGroupTactic(bc *boundsCtx, e ast.Expr, base ast.Expr, need needLen)
 	if kv == nil || !bc.nonNegative(kv) {
 		return "", false
 	}
-	post, ok := loop.Post.(*ast.IncDecStmt)
-	if !ok || post.Tok != token.INC || core.VarOf(info, post.X) != kv {
+	// the loop variable indexes the shrunk element and strictly increases: i++ of a counted for, or the range-over-int form
+	if liv, _, _, _, _ := countedLoop(info, loopNode); liv != kv {
+		return "", false
+	}
+	if fs, isFor := loopNode.(*ast.ForStmt); isFor {
+		post, ok := fs.Post.(*ast.IncDecStmt)
+		if !ok || post.Tok != token.INC || core.VarOf(info, post.X) != kv {
+			return "", false
+		}
+	}
+	// nothing in the body may write the loop variable
+	writesKV := false
+	ast.Inspect(loop.Body, func(n ast.Node) bool {
+		switch x := n.(type) {
+		case *ast.AssignStmt:
+			for _, l := range x.Lhs {
+				if core.VarOf(info, l) == kv {
+					writesKV = true
+				}
+			}
+		case *ast.IncDecStmt:
+			if core.VarOf(info, x.X) == kv {
+				writesKV = true
+			}
+		}
+		return true
+	})
+	if writesKV {
 		return "", false
 	}
 	// no nested loop or branch statement in the loop body (straight re-reads)
@@ -311,12 +340,44 @@ func c19R1(p *core.Program, r *core.Report, split *core.Func) {
 	// result loop: only empty groups are dropped, string(s) appended whole
 	okResult := false
 	var rpos token.Pos = split.Node().Pos()
+	// the loops that visit every group: `for _, s := range groups` (element = s) or a counted loop
+	// 0..len(groups) (element = groups[i])
+	type groupLoop struct {
+		body   *ast.BlockStmt
+		isElem func(e ast.Expr) bool
+	}
+	var groupLoops []groupLoop
 	for _, rs := range otherRange {
-		sv := core.VarOf(info, rs.Value)
-		if sv == nil {
+		if sv := core.VarOf(info, rs.Value); sv != nil {
+			groupLoops = append(groupLoops, groupLoop{rs.Body, func(e ast.Expr) bool { return core.VarOf(info, e) == sv }})
+		}
+	}
+	for _, st := range split.Body.List {
+		iv, bound, body, op, ok := countedLoop(info, st)
+		if !ok || op != token.LSS {
 			continue
 		}
-		ast.Inspect(rs.Body, func(n ast.Node) bool {
+		lc, isLen := ast.Unparen(bound).(*ast.CallExpr)
+		if !isLen || core.CalleeName(info, lc) != "builtin.len" || len(lc.Args) != 1 {
+			continue
+		}
+		acc := core.VarOf(info, lc.Args[0])
+		if acc == nil {
+			continue
+		}
+		if fs, isFor := st.(*ast.ForStmt); isFor {
+			init, isAs := fs.Init.(*ast.AssignStmt)
+			if !isAs || len(init.Rhs) != 1 || !constIs(info, init.Rhs[0], 0) {
+				continue
+			}
+		}
+		groupLoops = append(groupLoops, groupLoop{body, func(e ast.Expr) bool {
+			ix, ok := ast.Unparen(e).(*ast.IndexExpr)
+			return ok && core.VarOf(info, ix.X) == acc && core.VarOf(info, ix.Index) == iv
+		}})
+	}
+	for _, gl := range groupLoops {
+		ast.Inspect(gl.body, func(n ast.Node) bool {
 			as, ok := n.(*ast.AssignStmt)
 			if !ok || len(as.Rhs) != 1 {
 				return true
@@ -326,21 +387,28 @@ func c19R1(p *core.Program, r *core.Report, split *core.Func) {
 				return true
 			}
 			conv, ok := c.Args[1].(*ast.CallExpr)
-			if !ok || len(conv.Args) != 1 || core.VarOf(info, conv.Args[0]) != sv {
+			if !ok || len(conv.Args) != 1 || !gl.isElem(conv.Args[0]) {
 				return true
 			}
 			if tv, ok := info.Types[conv.Fun]; !ok || !tv.IsType() {
 				return true
 			}
 			rpos = as.Pos()
-			// facts about s at the append: only len(s) >= 1
+			// facts about the element at the append: only len(elem) >= 1
 			okResult = true
 			bc := &boundsCtx{f: split, g: g, info: info}
 			for _, f := range g.FactsAt(g.PointOf(as)) {
-				if !core.Mentions(info, f.Cond, sv) {
+				mentions := false
+				ast.Inspect(f.Cond, func(m ast.Node) bool {
+					if e, isExpr := m.(ast.Expr); isExpr && gl.isElem(e) {
+						mentions = true
+					}
+					return !mentions
+				})
+				if !mentions {
 					continue
 				}
-				if lb, ok := bc.lenLowerBound(f, rs.Value); !ok || lb != 1 {
+				if lb, ok := bc.lenLowerBound(f, conv.Args[0]); !ok || lb != 1 {
 					okResult = false
 				}
 			}
